@@ -200,7 +200,34 @@ def check_yaml(rep, entries, out, rng, path):
     return got
 
 
+def _convert_job(which):
+    def job():
+        from bromelia._internal_utils import _convert_config_to_connection_obj
+        base = {"MODE": "CLIENT", "TRANSPORT_TYPE": "TCP", "APPLICATIONS": [], "LOCAL_NODE_HOSTNAME": "a.example", "LOCAL_NODE_REALM": "example",
+                "LOCAL_NODE_IP_ADDRESS": "10.0.0.1", "LOCAL_NODE_PORT": 3868, "PEER_NODE_HOSTNAME": "b.example", "PEER_NODE_REALM": "peer.example",
+                "PEER_NODE_IP_ADDRESS": "10.0.0.2", "PEER_NODE_PORT": 3869, "WATCHDOG_TIMEOUT": 30}
+        cfgs = [base, dict(base, MODE="SERVER", TRANSPORT_TYPE="SCTP", LOCAL_NODE_PORT=4000, WATCHDOG_TIMEOUT=7), dict(base, PEER_NODE_IP_ADDRESS="300.1.1.1"),
+                dict(base, MODE="server"), dict(base, LOCAL_NODE_HOSTNAME="z.example", PEER_NODE_PORT=1)]
+        if which == "b":
+            cfgs = cfgs[::-1]
+        out = []
+        for c in cfgs:
+            try:
+                out.append(repr(_convert_config_to_connection_obj(dict(c))))
+            except BaseException as e:
+                out.append("raised " + type(e).__name__)
+        return out
+    return job
+
+
+def purity(rep):
+    from engine import concur
+    pairs = [("two configurations converted at the same time", _convert_job("a"), _convert_job("b"))]
+    return concur.purity_stage(rep, "the configuration conversion", pairs, ("/bromelia/_internal_utils.py", "/bromelia/config.py"), kmax=900, stride=11 if rep.tier == "quick" else 1)
+
+
 def run(rep):
+    purity(rep)
     rng = random.Random(rep.seed * 7919 + 19)
     quick = rep.tier == "quick"
     rep.rule = ("V: every key x every abstract value class (single and double deviations), unknown key at every position, in rotations / "
@@ -322,6 +349,10 @@ def run(rep):
 
 def replay(rep, path):
     r = json.load(open(path))["replay"]
+    if r.get("kind") == "purity":
+        purity(rep)
+        rep.sample(r)
+        return rep.finish()
     rng = random.Random(rep.seed)
     if r["kind"] == "config":
         vec, res = vectors.gen("Gen_replay", ["Config"], f"V == <<[out |-> Outcome({T(r['cfg'])})]>>", "V")
